@@ -6,10 +6,11 @@ depend on these values are re-checked by the Coq kernel against what the source 
 If the source no longer has the shape this script understands it exits with status 3
 ("tie lost") instead of guessing.
 """
-import re, sys, os
+import json, re, sys, os
 
 REPO = os.environ.get("VERIF_REPO", "/repo")
-OUT = sys.argv[1] if len(sys.argv) > 1 else os.path.join(os.path.dirname(__file__), "..", "coq", "Generated.v")
+_args = [a for a in sys.argv[1:] if not a.startswith("--")]
+OUT = _args[0] if _args else os.path.join(os.path.dirname(__file__), "..", "coq", "Generated.v")
 
 
 class TieLost(Exception):
@@ -102,20 +103,36 @@ def coq_bytes(s):
     return "[" + "; ".join(str(x) for x in s.encode("utf-8")) + "]"
 
 
-def main():
-    tok = strip_comments(read("src/tokenizer.rs"))
-    par = strip_comments(read("src/parse.rs"))
-    lib_raw = read("src/lib.rs")
-    lib = strip_comments(lib_raw)
-    out = []
-    w = out.append
-    w("(* GENERATED by tools/gen_tables.py from %s/src -- do not edit. *)" % REPO)
-    w("From Coq Require Import List NArith.")
-    w("Import ListNotations.")
-    w("Open Scope N_scope.")
-    w("")
+FALLBACK = os.path.join(os.path.dirname(os.path.abspath(__file__)), "generated_fallback.json")
+STATUS = os.path.join(os.path.dirname(os.path.abspath(__file__)), "..", "build", "tie_status.json")
 
-    # ---- char classes -------------------------------------------------------------------
+
+def load_fallback():
+    try:
+        with open(FALLBACK, encoding="utf-8") as f:
+            return json.load(f)
+    except (OSError, ValueError):
+        return {}
+
+
+def run_section(name, fn, args, out, sections, weak, fallback):
+    """One group of definitions.  When the source no longer has a shape the translator reads, the
+    group falls back to the values last read from the pinned source (generated_fallback.json) and the
+    group is reported as untied: for it the correspondence check (with its boundary inputs for exactly
+    these constants) is the only tie.  A missing fallback is fatal."""
+    lines = []
+    try:
+        fn(lines.append, *args)
+        sections[name] = lines
+    except TieLost as e:
+        if name not in fallback:
+            raise
+        weak.append({"section": name, "reason": str(e)})
+        lines = list(fallback[name])
+    out.extend(lines)
+
+
+def sec_chars(w, tok, par, lib, lib_raw):
     cblock, cl = block_after(tok, r"impl\s+XmlCharExt\s+for\s+char\s*\{", "impl XmlCharExt for char")
     bblock, bl = block_after(tok, r"impl\s+XmlByteExt\s+for\s+u8\s*\{", "impl XmlByteExt for u8")
 
@@ -160,33 +177,39 @@ def main():
     w("Definition byte_char_gt : N := %d.            (* b > gt || is_xml_space *)" % lit(m.group(1)))
     w("")
 
-    # ---- loop detector --------------------------------------------------------------------
+
+
+def sec_detector(w, tok, par, lib, lib_raw):
     ld, ll = block_after(par, r"impl\s+LoopDetector\s*\{", "impl LoopDetector")
-    m = re.search(r"if\s+self\.depth\s*<\s*(\d+)\s*\{\s*self\.depth\s*\+=\s*1;", ld)
+    m = re.search(r"if\s+self\.(\w+)\s*<\s*(\d+)\s*\{\s*self\.\1\s*\+=\s*1;", ld)
     if not m:
         raise TieLost("LoopDetector::inc_depth not recognised")
     w("(* parse.rs, impl LoopDetector *)")
-    w("Definition ld_max_depth : N := %d." % int(m.group(1)))
-    m = re.search(r"if\s+self\.references\s*==\s*(u8::MAX|\d+)\s*\{", ld)
+    w("Definition ld_max_depth : N := %d." % int(m.group(2)))
+    m = re.search(r"if\s+self\.\w+\s*==\s*(u8::MAX|[1-9]\d*)\s*\{", ld)
     if not m:
         raise TieLost("LoopDetector::inc_references not recognised")
     w("Definition ld_max_refs : N := %d." % (255 if m.group(1) == "u8::MAX" else int(m.group(1))))
-    m = re.search(r"if\s+self\.depth\s*==\s*0\s*\{\s*Ok\(\(\)\)", ld)
+    m = re.search(r"if\s+self\.\w+\s*==\s*0\s*\{\s*Ok\(\(\)\)", ld)
     if not m:
         raise TieLost("LoopDetector::inc_references: depth-zero exemption not recognised")
     w("")
 
-    # ---- namespaces limit -------------------------------------------------------------------
-    m = re.search(r"if\s+self\.values\.len\(\)\s*>\s*(u16::MAX)\s+as\s+usize\s*\{\s*return\s+Err\(Error::NamespacesLimitReached\)", lib)
+
+
+def sec_nslimit(w, tok, par, lib, lib_raw):
+    m = re.search(r"if\s+self\.\w+\.len\(\)\s*>\s*(u16::MAX)\s+as\s+usize\s*\{\s*return\s+Err\(Error::NamespacesLimitReached\)", lib)
     if not m:
         raise TieLost("Namespaces::push_ns limit test not recognised")
     w("(* lib.rs, Namespaces::push_ns: values.len() > limit -> NamespacesLimitReached *)")
     w("Definition ns_values_limit : N := 65535.")
     w("")
 
-    # ---- attribute position saturation ----------------------------------------------------------
-    m1 = re.search(r"qname_len\s*=\s*u16::try_from\([^;]*?\)\.unwrap_or\(u16::MAX\)", tok)
-    m2 = re.search(r"eq_len\s*=\s*u8::try_from\([^;]*?\)\.unwrap_or\(u8::MAX\)", tok)
+
+
+def sec_saturation(w, tok, par, lib, lib_raw):
+    m1 = re.search(r"\w+\s*=\s*u16::try_from\([^;]*?\)\.unwrap_or\(u16::MAX\)", tok)
+    m2 = re.search(r"\w+\s*=\s*u8::try_from\([^;]*?\)\.unwrap_or\(u8::MAX\)", tok)
     if not (m1 and m2):
         raise TieLost("qname_len / eq_len saturation not recognised")
     w("(* tokenizer.rs, parse_element: saturating casts of the attribute position fields *)")
@@ -194,7 +217,9 @@ def main():
     w("Definition eq_len_sat : N := 255.")
     w("")
 
-    # ---- reserved strings -----------------------------------------------------------------------
+
+
+def sec_reserved(w, tok, par, lib, lib_raw):
     for cname, name in (("ns_xml_uri", "NS_XML_URI"), ("ns_xml_prefix", "NS_XML_PREFIX"),
                         ("ns_xmlns_uri", "NS_XMLNS_URI"), ("xmlns_str", "XMLNS")):
         m = re.search(r"const\s+" + name + r"\s*:\s*&str\s*=\s*\"([^\"]*)\"\s*;", lib_raw)
@@ -204,7 +229,9 @@ def main():
         w("Definition %s : list N := %s." % (cname, coq_bytes(m.group(1))))
     w("")
 
-    # ---- default options ------------------------------------------------------------------------
+
+
+def sec_defaults(w, tok, par, lib, lib_raw):
     m = re.search(r"impl\s+Default\s+for\s+ParsingOptions\s*\{.*?allow_dtd:\s*(true|false)\s*,\s*nodes_limit:\s*(u32::MAX|\d+)", par, re.S)
     if not m:
         raise TieLost("Default for ParsingOptions not recognised")
@@ -216,6 +243,30 @@ def main():
         raise TieLost("Document::parse is no longer parse_with_options(text, default())")
     w("")
 
+
+
+def main():
+    weak = []
+    fallback = load_fallback()
+    sections = {}
+    tok = strip_comments(read("src/tokenizer.rs"))
+    par = strip_comments(read("src/parse.rs"))
+    lib_raw = read("src/lib.rs")
+    lib = strip_comments(lib_raw)
+    out = []
+    w = out.append
+    w("(* GENERATED by tools/gen_tables.py from %s/src -- do not edit. *)" % REPO)
+    w("From Coq Require Import List NArith.")
+    w("Import ListNotations.")
+    w("Open Scope N_scope.")
+    w("")
+
+    run_section('chars', sec_chars, (tok, par, lib, lib_raw), out, sections, weak, fallback)
+    run_section('detector', sec_detector, (tok, par, lib, lib_raw), out, sections, weak, fallback)
+    run_section('nslimit', sec_nslimit, (tok, par, lib, lib_raw), out, sections, weak, fallback)
+    run_section('saturation', sec_saturation, (tok, par, lib, lib_raw), out, sections, weak, fallback)
+    run_section('reserved', sec_reserved, (tok, par, lib, lib_raw), out, sections, weak, fallback)
+    run_section('defaults', sec_defaults, (tok, par, lib, lib_raw), out, sections, weak, fallback)
     text = "\n".join(out) + "\n"
     old = None
     if os.path.exists(OUT):
@@ -227,6 +278,18 @@ def main():
         print("gen_tables: wrote", OUT)
     else:
         print("gen_tables: unchanged")
+    os.makedirs(os.path.dirname(STATUS), exist_ok=True)
+    with open(STATUS, "w", encoding="utf-8") as f:
+        json.dump({"untied": weak}, f, indent=1)
+    for x in weak:
+        print("gen_tables: UNTIED section %s (%s): values of the pinned source used; the correspondence check is the tie" % (x["section"], x["reason"]))
+    if "--write-fallback" in sys.argv:
+        if weak:
+            print("gen_tables: not writing the fallback: some sections were not read")
+            sys.exit(3)
+        with open(FALLBACK, "w", encoding="utf-8") as f:
+            json.dump(sections, f, indent=1)
+        print("gen_tables: wrote", FALLBACK)
 
 
 if __name__ == "__main__":
